@@ -23,6 +23,7 @@ LEVEL_TEXT = (
     "and learn history before every policy() call on all interleavings (schedule independence); no state in which both "
     "threads are about to access the same shared attribute with one writing (race candidates). A violation is reported "
     "as the source statements along the offending product path."
+    ' The calibrate loop hands the outcome of every executed batch to the scheduler (update once per iteration, C09-R1) - the product analysis takes the loop as it finds it, this rule pins it.'
 )
 TECHNIQUE = "effect analysis: extraction of communicating thread summaries from CFGs + exhaustive product exploration (interleaving semantics, FIFO queues)"
 LEVEL_NOTE = ("Trusted base: Python semantics of the statement kinds handled by sa/cfg.py and sa/sync.py (generator-based context managers, try/finally, "
